@@ -27,7 +27,12 @@ func timerSetup(w *World) (sc *Script, s *session.Session, n int, logonAt time.T
 	w.Cfg("N", n)
 	store := NewStore(w)
 	store.Quiet = true
-	sc = w.NewScript(ScriptCfg{Role: role, HandlerBuf: buf, ConnBuf: buf, HBMin: 1, HBMax: 60, HeartBtInt: n, CloseTimeout: time.Second, Store: store})
+	opts := NewOpts
+	if w.W.Chance(1, 2) {
+		opts = NewOptsWithSequenceReset // the optional builder changes how inbound SequenceReset is treated
+		w.Cfg("sequence_reset_builder", true)
+	}
+	sc = w.NewScript(ScriptCfg{Role: role, HandlerBuf: buf, ConnBuf: buf, HBMin: 1, HBMax: 60, HeartBtInt: n, CloseTimeout: time.Second, Store: store, Opts: opts})
 	// a logon at a non-round instant, so that tick phases vary
 	simrt.Sleep(time.Duration(w.W.Draw(1000)) * time.Millisecond)
 	sc.Settle()
@@ -228,6 +233,11 @@ func c09(w *World) {
 	switch pattern {
 	case "steady":
 		periods := 20 + w.W.Draw(281)
+		steadyOnly := -1 // -1: mixed types; otherwise one message type only ("any type" means every type on its own)
+		if w.W.Chance(1, 2) {
+			steadyOnly = w.W.Draw(5)
+			periods = 20 + w.W.Draw(40)
+		}
 		for i := 0; i < periods && !sc.P.EOF; i++ {
 			// something at least every N seconds, of any type
 			gap := time.Duration(n)*time.Second - time.Duration(w.W.Draw(n*500))*time.Millisecond
@@ -235,13 +245,20 @@ func c09(w *World) {
 				gap = time.Duration(n) * time.Second
 			}
 			simrt.Sleep(gap)
-			switch w.W.Draw(4) {
+			kind := w.W.Draw(5)
+			if steadyOnly >= 0 {
+				kind = steadyOnly
+			}
+			switch kind {
 			case 0:
 				sc.P.Send(sc.Msg("0"))
 			case 1:
 				sc.P.Send(sc.Msg("1", F(TagTestReqID, "k"+itoa(i))))
 			case 2:
 				sc.P.Send(sc.Msg("D", F(11, "o"+itoa(i))))
+			case 3:
+				// SequenceReset-GapFill announcing exactly the next number: sequence numbers stay in step
+				sc.P.Send(sc.Msg("4", F(123, "Y"), FI(36, sc.LastSeq()+1)))
 			default:
 				sc.P.Send(sc.Msg("ZZ"))
 			}
@@ -325,11 +342,15 @@ func c09(w *World) {
 				w.Violate("disconnected-too-early", fmt.Sprintf("N=%d", n), fmt.Sprintf("connection closed %v after the TestRequest, T=%v", time.Since(t1), T))
 				break
 			}
-			switch w.W.Draw(3) {
+			switch w.W.Draw(5) {
 			case 0:
 				sc.P.Send(sc.Msg("0", F(TagTestReqID, "1")))
 			case 1:
 				sc.P.Send(sc.Msg("D", F(11, "late")))
+			case 2:
+				sc.P.Send(sc.Msg("4", F(123, "Y"), FI(36, sc.LastSeq()+1)))
+			case 3:
+				sc.P.Send(sc.Msg("ZZ"))
 			default:
 				sc.P.Send(sc.Msg("1", F(TagTestReqID, "back")))
 			}
@@ -346,6 +367,23 @@ func c09(w *World) {
 				w.Violate("probe-too-early", "after-answer", fmt.Sprintf("a second TestRequest %v after the peer's answer, T=%v", probes()[1].At.Sub(ta), T))
 			}
 			w.Probe("answer_cancelled_disconnect")
+			// the answer cancelled the pending disconnect: if the peer now falls silent again the
+			// cycle starts over — a new TestRequest first, the disconnect only a full period later
+			simrt.Sleep(ta.Add(T + slack + time.Millisecond).Sub(time.Now()))
+			sc.Settle()
+			ps2 := probes()
+			if len(ps2) < 2 {
+				if sc.P.EOF {
+					w.Violate("answered-probe-disconnected", fmt.Sprintf("N=%d/without-second-probe", n), fmt.Sprintf("after the peer answered the TestRequest and fell silent again the connection was closed %v after the answer without a new TestRequest (T=%v)", sc.P.EOFAt.Sub(ta), T))
+				} else {
+					w.Violate("silent-peer-not-probed", fmt.Sprintf("N=%d/second-cycle", n), fmt.Sprintf("no new TestRequest within %v of renewed silence", T+slack))
+				}
+				break
+			}
+			if sc.P.EOF && sc.P.EOFAt.Before(ps2[1].At.Add(T)) {
+				w.Violate("disconnected-too-early", fmt.Sprintf("N=%d/second-cycle", n), fmt.Sprintf("connection closed %v after the second TestRequest, T=%v", sc.P.EOFAt.Sub(ps2[1].At), T))
+			}
+			w.Probe("second_cycle_checked")
 		}
 	}
 	if !sc.P.EOF {
